@@ -137,7 +137,9 @@ Proof.
     assert (Hin1 : In e (qint (sq_push (m_sq st) e) ic)).
     { rewrite <- Ecl. apply (fold_push_in [e] (m_sq st) e (or_introl eq_refl)).
       unfold SB.route. rewrite Eev. reflexivity. }
-    destruct (pick_pinned _ _ _ _ _ ic e Hinv1 (ih_push _ e Hih) Hin1 ltac:(cbn [m_sq]; lia) H)
+    assert (Hle : (se_time e <= now + Z.of_N (peek_timers (s_timers (m_c st)) (s_timers (m_s st)) now))%Z) by lia.
+    destruct (pick_pinned _ (mksim (sq_push (m_sq st) e) c' s' (m_net st) (m_pos st)) _ _ _ ic e
+                Hinv1 (ih_push _ e Hih) Hin1 Hle H)
       as (Htn & Tc & Ts & Hk). cbn [m_sq m_c m_s] in Tc, Ts, Hk.
     right. exists ic, mi. rewrite Htn, <- Etime.
     split; [exact Hn|]. split; [destruct ic; cbn [side_of] in *; congruence|].
@@ -147,8 +149,89 @@ Proof.
     pose proof (SB.do_scheduled_action_ev _ _ _ _ _ _ Hd) as Hev.
     assert (Hinv2 : SB.sq_inv (sq_push (m_sq st) e)).
     { apply SB.sq_push_inv; [exact Hinv|]. destruct Hev as [[m0 ->]|[m0 ->]]; discriminate. }
-    pose proof (IH _ _ _ _ Hinv2 (ih_push _ e Hih) H) as Hs.
+    pose proof (IH (mksim (sq_push (m_sq st) e) c' s' (m_net st) (m_pos st)) _ _ _
+                   Hinv2 (ih_push _ e Hih) H) as Hs.
     eapply pick_shape_from; [| |exact Hs]; cbn [m_c m_s];
       apply do_scheduled_action_spec in Hd; destruct Hd as (ic & mi & a & Hd); cbv zeta in Hd;
       destruct ic; destruct Hd as (_ & _ & Ho & Ht & _); subst; auto.
+Qed.
+
+(** * 3. The relation between the replay and a timer slot *)
+(** equal; or the timer has fired (slot cleared) and its TimerEnd is still to be reported at this instant;
+    or an earlier TimerEnd of this instant was taken for the end of a zero-duration re-arm that is in fact
+    still running *)
+Definition R2 (now : Z) (cur s : option Z) : Prop := cur = Some now /\ s = None.
+Definition R3 (now : Z) (cur s : option Z) : Prop := cur = None /\ s = Some now.
+
+Lemma timer_step_rel : forall now mi a cur s,
+  cur = s \/ R2 now cur s \/ R3 now cur s ->
+  timer_step now mi cur a = timer_step now mi s a \/
+  (R2 now (timer_step now mi cur a) (timer_step now mi s a) /\ R2 now cur s) \/
+  (R3 now (timer_step now mi cur a) (timer_step now mi s a) /\ R3 now cur s).
+Proof.
+  intros now mi a cur s H. unfold timer_step.
+  destruct (Nat.eqb (N.to_nat (taction_machine a)) mi).
+  2:{ destruct H as [->|[H|H]]; auto. }
+  destruct a as [m tm|m tmo by_ rp|m tmo dur by_ rp|m dur rp].
+  - destruct tm; [destruct H as [->|[H|H]]; auto|left; reflexivity|left; reflexivity].
+  - destruct H as [->|[H|H]]; auto.
+  - destruct H as [->|[H|H]]; auto.
+  - destruct H as [->|[[-> ->]|[-> ->]]]; [left; reflexivity| |]; left; unfold timer_sets.
+    + rewrite orb_true_r. destruct rp; cbn [orb]; [reflexivity|].
+      destruct (Z.ltb_spec now (now + Z.of_N dur)); [reflexivity|]. f_equal. lia.
+    + rewrite orb_true_r. destruct rp; cbn [orb]; [reflexivity|].
+      destruct (Z.ltb_spec now (now + Z.of_N dur)); [reflexivity|]. f_equal. lia.
+Qed.
+
+Lemma timer_after_rel : forall acts now mi cur s,
+  cur = s \/ R2 now cur s \/ R3 now cur s ->
+  timer_after acts now mi cur = timer_after acts now mi s \/
+  (R2 now (timer_after acts now mi cur) (timer_after acts now mi s) /\ R2 now cur s) \/
+  (R3 now (timer_after acts now mi cur) (timer_after acts now mi s) /\ R3 now cur s).
+Proof.
+  induction acts as [|a rest IH]; intros now mi cur s H.
+  - unfold timer_after. cbn [fold_left]. destruct H as [H|[H|H]]; auto.
+  - rewrite !timer_after_cons.
+    destruct (timer_step_rel now mi a cur s H) as [E|[[A B]|[A B]]].
+    + left. rewrite E. reflexivity.
+    + destruct (IH now mi _ _ (or_intror (or_introl A))) as [E|[[C D]|[C D]]]; auto.
+      exfalso. destruct A as [A1 A2], D as [D1 D2]. congruence.
+    + destruct (IH now mi _ _ (or_intror (or_intror A))) as [E|[[C D]|[C D]]]; auto.
+      exfalso. destruct A as [A1 A2], D as [D1 D2]. congruence.
+Qed.
+
+(** the relation across the event of a record (propositional core) *)
+Lemma mid_core : forall (cur cur_mid s s1 : option Z) (now T : Z) (isTE Q Q1 ST ST1 : Prop),
+  {isTE} + {~ isTE} ->
+  (isTE -> cur_mid = match cur with Some e => if (e =? T)%Z then None else cur | None => None end) ->
+  (~ isTE -> cur_mid = cur) ->
+  cur = s \/ (R2 now cur s /\ Q) \/ (R3 now cur s /\ ST) ->
+  s1 = s \/ (s = Some T /\ s1 = None /\ (isTE \/ Q1)) ->
+  (Q -> T = now /\ (Q1 \/ isTE)) ->
+  (s = Some now -> s1 = s -> T = now) ->
+  (ST -> T = now -> ST1) -> (isTE -> ST1) ->
+  cur_mid = s1 \/ (R2 T cur_mid s1 /\ Q1) \/ (R3 T cur_mid s1 /\ ST1).
+Proof.
+  intros cur cur_mid s s1 now T isTE Q Q1 ST ST1 Hdec Hte Hnte HJ Hsh HP1 HP3 Hst Hst2.
+  unfold R2, R3 in *.
+  destruct Hdec as [Hi|Hi].
+  - rewrite (Hte Hi). clear Hte Hnte.
+    destruct HJ as [->|[[[-> ->] HQ]|[[-> ->] HST]]].
+    + destruct Hsh as [->|(-> & -> & _)].
+      * destruct s as [e|]; [|left; reflexivity].
+        destruct (Z.eqb_spec e T) as [->|Hne]; [|left; reflexivity].
+        right. right. auto.
+      * rewrite Z.eqb_refl. left. reflexivity.
+    + destruct (HP1 HQ) as [-> _]. rewrite Z.eqb_refl.
+      destruct Hsh as [->|(C & _)]; [left; reflexivity|discriminate C].
+    + destruct Hsh as [E|(_ & -> & _)]; [|left; reflexivity].
+      pose proof (HP3 eq_refl E) as ->. subst s1. right. right. auto.
+  - rewrite (Hnte Hi). clear Hte Hnte.
+    destruct HJ as [->|[[[-> ->] HQ]|[[-> ->] HST]]].
+    + destruct Hsh as [->|(-> & -> & [C|HQ1])]; [left; reflexivity|contradiction|].
+      right. left. auto.
+    + destruct (HP1 HQ) as [-> [HQ1|C]]; [|contradiction].
+      destruct Hsh as [->|(C & _)]; [|discriminate C]. right. left. auto.
+    + destruct Hsh as [E|(_ & -> & _)]; [|left; reflexivity].
+      pose proof (HP3 eq_refl E) as ->. subst s1. right. right. auto.
 Qed.
